@@ -117,4 +117,17 @@ def ownChain : Cfg → List String → Option (List (Option String))
     | some (.node sub) => (ownChain sub rest).map (fun ch => c.keyfile :: ch)
     | _ => none
 
+/-- `cfg.<path>._key_filename = file` on the sub-configuration reached by a path of field names (`none` = not a configuration) -/
+def setKeyAt : Cfg → List String → Option String → Option Cfg
+  | c, [], file => some (c.withKeyfile file)
+  | c, k :: rest, file =>
+    match c.get k with
+    | some (.node sub) => (setKeyAt sub rest file).map (fun sub' => c.set k (.node sub'))
+    | _ => none
+
+/-- a world in which "encrypting" under key file `k` just records `k`: the serialised tree then shows which key file every
+    secret was written under (used by the correspondence check) -/
+def markWorld (W : World) (k : String) : World :=
+  { W with fe := { W.fe with encryptS := fun _ s => some (.str ("ENC|".toList ++ k.toList ++ "|".toList ++ s)) } }
+
 end Cinco.Config
